@@ -280,7 +280,9 @@ def index_meta(model, dec, fid, write_op, prop='C13', extra_fp=None):
                 cls, dev = 'nonuniform', float('inf')
             else:
                 dev = max((1 - d / med) ** 2 for d in diffs)
-                cls = 'uniform' if dev < 1e-4 else ('nonuniform' if dev > 0.01 else 'band')
+                # the documented limit (the comment in FrameItem._compute_spacing_and_direction) is dev < 0.001; within 2 % of it
+                # rounding in the index dtype may decide either way: no verdict there
+                cls = 'uniform' if dev < 0.00098 else ('nonuniform' if dev > 0.00102 else 'band')
             if all(d == 0 for d in diffs):
                 mono = 'const'
             elif all(d >= 0 for d in diffs):
